@@ -18,6 +18,7 @@ import (
 	"hash"
 	"hash/fnv"
 	"io"
+	"net"
 	"os"
 	"path/filepath"
 	"reflect"
@@ -238,7 +239,7 @@ var variants = map[string][]string{
 	"groupreader": {"sync-commit", "interval-commit"},
 	"conn":        {"leader", "leader", "leader-old-produce"},
 	"batch":       {"v2", "v1-gzip", "v2-snappy"},
-	"client":      {"ttl-short", "ttl-long", "tls-two-addresses", "multi-bootstrap"},
+	"client":      {"ttl-short", "ttl-long", "tls-two-addresses", "multi-bootstrap", "resolver"},
 	"balancer":    {"roundrobin", "roundrobin-chunk3", "leastbytes", "hash", "hash-custom-hasher", "refhash", "crc32", "crc32-consistent", "murmur2", "murmur2-consistent"},
 	"codec":       {"gzip", "snappy", "snappy-unframed", "lz4", "zstd"},
 }
@@ -416,6 +417,18 @@ func setup(tb ev.TB, p Program) *env {
 			// the address the Client is given lists two brokers: the Transport may try them in any order, the list is the caller's
 			e.cl.AddBroker(2, "")
 			e.c.Addr = kafka.TCP(addr, "b2.fake:9092")
+		}
+		if p.Variant == "resolver" {
+			// Transport.Resolver: the pool asks it for the addresses of a broker before every connection it grabs
+			e.tr.Resolver = fakeResolver{}
+			e.tr.MetadataTTL = 10 * time.Second // requests of the program and the pool's own share the bootstrap group
+			e.tr.Dial = func(ctx context.Context, network, address string) (net.Conn, error) {
+				host, port, _ := net.SplitHostPort(address)
+				if ip := net.ParseIP(host).To4(); ip != nil && ip[0] == 10 {
+					address = fmt.Sprintf("b%d.fake:%s", ip[3], port)
+				}
+				return e.nw.Dial(ctx, network, address)
+			}
 		}
 		if p.Variant == "tls-two-addresses" {
 			// One Transport with a TLS configuration that names no server, used for two cluster addresses.  The fake brokers do
@@ -974,3 +987,15 @@ func TestBatchPrograms(t *testing.T)       { checkSubject(t, "batch") }
 func TestClientPrograms(t *testing.T)      { checkSubject(t, "client") }
 func TestBalancerPrograms(t *testing.T)    { checkSubject(t, "balancer") }
 func TestCodecPrograms(t *testing.T)       { checkSubject(t, "codec") }
+
+
+// fakeResolver maps the fake brokers' host names b<N>.fake to 10.0.0.<N> (stateless: it cannot race with itself).
+type fakeResolver struct{}
+
+func (fakeResolver) LookupBrokerIPAddr(ctx context.Context, b kafka.Broker) ([]net.IPAddr, error) {
+	var n int
+	if _, err := fmt.Sscanf(b.Host, "b%d.fake", &n); err != nil {
+		return nil, fmt.Errorf("fakeResolver: unknown host %q", b.Host)
+	}
+	return []net.IPAddr{{IP: net.IPv4(10, 0, 0, byte(n))}}, nil
+}
